@@ -52,6 +52,8 @@ func checkC19(c *Ctx) {
 	ruleOverwrittenVerdict(c, "C19.h", "imapserver/imapmemserver")
 	c.rule("C19.i", "the saved search result is replaced whenever SAVE is requested, and only after the criteria were resolved against the previous one ($ keys of a multi-key SEARCH see the previous result)", 2)
 	ruleSearchResDiscipline(c, "C19.i")
+	c.rule("C19.j", "a parsed NOT/OR key is recorded whatever it contains", 2)
+	ruleNestedKeysRecorded(c, "C19.j")
 }
 
 // ruleConjunctiveMatcher: (*imapmemserver.message).search must be a
